@@ -160,7 +160,10 @@ Definition run_C18 (x : sx) : sx :=
                                       | O => []
                                       | S _ => [run_typed (snd ai)]
                                       end) l);
-              SL (map (fun ai => SB (attempt_leaves_session (fst ai))) l)]
+              SL (map (fun ai => SB (attempt_leaves_session (fst ai))) l);
+              (* the client's state after the attempt: 1 established, 0 disconnected, 2 not compared *)
+              SL (map (fun ai => SZ (match o_state (run_attempt (fst ai)) with
+                                     | CsEstablished => 1 | CsDisconnected => 0 | CsAsBefore => 2 end)) l)]
       | None => decode_error
       end
   | _ => with_input dec_input run_typed x
